@@ -33,8 +33,13 @@ KindTable ==
     num      |-> K([type |-> <<"number">>], JNum(6), JNum(8), ""),
     str      |-> K(Str_, SA, SB, ""),
     bool     |-> K([type |-> <<"boolean">>], JBool(TRUE), JBool(FALSE), ""),
-    nullint  |-> K([type |-> <<"integer", "null">>], JNum(4), JNum(8), "DefaultOnNullableScalar"),
-    nullstr  |-> K([type |-> <<"string", "null">>], SA, SB, "DefaultOnNullableScalar"),
+    \* nullable scalars are pointer fields (the bare literal did not compile before fix 5105be8)
+    nullint  |-> K([type |-> <<"integer", "null">>], JNum(4), JNum(8), ""),
+    nullstr  |-> K([type |-> <<"string", "null">>], SA, SB, ""),
+    nullnum  |-> K([type |-> <<"null", "number">>], JNum(6), JNum(-8), ""),
+    nullbool |-> K([type |-> <<"boolean", "null">>], JBool(TRUE), JBool(FALSE), ""),
+    nullsized |-> [K(("type" :> <<"integer", "null">>) @@ ("minimum" :> JNum(0)) @@ ("maximum" :> JNum(40)), JNum(20), JNum(40), "")
+                  EXCEPT !.sized = TRUE],
     strenum  |-> K([type |-> <<"string">>, enum |-> <<SA, SB>>], SA, SB, ""),
     untenum  |-> K([enum |-> <<SA, SB>>], SA, SB, ""),
     mixenum  |-> K([enum |-> <<SA, JNum(4)>>], SA, JNum(4), "DefaultOnWrappedEnum"),
